@@ -327,6 +327,36 @@ def _run_case(case):
                              {"at": c, "delivered_lengths": [len(g) for g in got][:12], "expected_lengths": [len(f) for f in frames[:whole]][:12],
                               "lens": lens, "bursts": case["bursts"]})
                     return out
+            # outgoing: frames written through the same dispatcher while its socket takes only part of what it is offered (a peer
+            # that is slow to read): what reaches the socket is each frame's 3-byte length and payload, whole and in order
+            if case.get("out"):
+                d._sock.caps = list(case.get("caps") or [1 << 30])
+                expected = bytearray()
+                for j, n in enumerate(case["out"]):
+                    payload = frame_bytes(j, n, 0) if n < 4096 else (frame_bytes(j, 4096, 0) * (n // 4096 + 1))[:n]
+                    try:
+                        top.toLower(payload)
+                    except Exception as e:
+                        out.fail("outgoing", "outgoing:dispatcher:send_raises:%s" % type(e).__name__, {"error": repr(e)[:200]})
+                        return out
+                    expected += struct.pack(">I", n)[1:] + payload
+                    if j % 2:
+                        # (the event loop finds the socket writable now and then)
+                        if d.writable() and d.out_buffer:
+                            d.handle_write()
+                d._sock.caps = None
+                for _ in range(200):
+                    if not d.out_buffer:
+                        break
+                    d.handle_write()
+                out.label("outgoing_through_the_dispatcher", "short_writes" if any(c < (1 << 20) for c in (case.get("caps") or [])) else "whole_writes")
+                if bytes(d._sock.wire) != bytes(expected):
+                    n = 0
+                    while n < min(len(d._sock.wire), len(expected)) and d._sock.wire[n] == expected[n]:
+                        n += 1
+                    out.fail("outgoing", "outgoing:dispatcher:bytes_on_the_socket_differ",
+                             {"sent": len(expected), "on_the_socket": len(d._sock.wire), "first_difference_at": n, "caps": (case.get("caps") or [])[:6], "frames": case["out"]})
+                    return out
             out.info = {"inside": len(case["bursts"]) > 0}
             return out
         finally:
@@ -469,7 +499,11 @@ def dispatcher_strategy():
         L = sum(3 + n for n in ls)
         bounds = list(itertools.accumulate(3 + n for n in ls))
         cut = st.one_of(st.sampled_from(bounds), st.sampled_from([1024, 2048, 3072, 4096]), st.integers(1, max(1, L - 1)))
-        return {"sub": "dispatcher", "lens": ls, "bursts": sorted(set(draw(st.lists(cut, min_size=0, max_size=8))))}
+        case = {"sub": "dispatcher", "lens": ls, "bursts": sorted(set(draw(st.lists(cut, min_size=0, max_size=8))))}
+        if draw(st.booleans()):
+            case["out"] = draw(st.lists(st.sampled_from([1, 3, 20, 300, 5000, 70000, 140000]), min_size=1, max_size=6))
+            case["caps"] = draw(st.lists(st.sampled_from([0, 1, 2, 3, 7, 100, 4096, 32768, 65536, 1 << 30]), min_size=1, max_size=6))
+        return case
     return build()
 
 
@@ -478,6 +512,8 @@ def _enum_dispatcher():
         L = sum(3 + n for n in lens)
         for bursts in ([], list(itertools.accumulate(3 + n for n in lens))[:-1], list(range(1024, L, 1024)), list(range(700, L, 700))):
             yield {"sub": "dispatcher", "lens": lens, "bursts": bursts}
+    for caps in ([1 << 30], [32768], [3, 0, 100], [65536, 1], [40000, 0]):
+        yield {"sub": "dispatcher", "lens": [5], "bursts": [], "out": [3, 70000, 20, 140000, 5000, 70000], "caps": caps}
 
 
 def outgoing_strategy():
@@ -507,3 +543,5 @@ def plan(tier):
         "shrink": "hypothesis",
         "budget_s": 120 if quick else 1500,
     }
+
+RULE += (" Also: a layer above failing on chosen frames while the stream goes on; streams of 200..4000 tiny frames; the stream read through the library's own asynchronous dispatcher class (socket double; bursts incl. multiples of its read size) and outgoing frames written through it while the socket takes only part of what it is offered.")
